@@ -14,6 +14,57 @@ class NotRegular(Exception):
     pass
 
 
+def rx_to_z3(pattern):
+    """Python regex (subset: literals, ., classes/ranges, ?, *, +, {m,n}, groups, |) -> z3 regex"""
+    try:
+        import re._parser as sre_parse
+    except ImportError:  # pragma: no cover
+        import sre_parse
+    if isinstance(pattern, bytes):
+        pattern = pattern.decode("latin-1")
+
+    def ch(c):
+        return z3.Re(z3.StringVal(chr(c)))
+
+    def seq(items):
+        rs = [one(op, av) for op, av in items]
+        if not rs:
+            return z3.Re(z3.StringVal(""))
+        return rs[0] if len(rs) == 1 else z3.Concat(*rs)
+
+    def one(op, av):
+        name = str(op)
+        if name == "LITERAL":
+            return ch(av)
+        if name == "ANY":
+            # `.`: any character except newline
+            return z3.Union(z3.Range(chr(0), chr(9)), z3.Range(chr(11), chr(0x2FFFF)))
+        if name == "IN":
+            parts = []
+            for o, a in av:
+                if str(o) == "LITERAL":
+                    parts.append(ch(a))
+                elif str(o) == "RANGE":
+                    parts.append(z3.Range(chr(a[0]), chr(a[1])))
+                else:
+                    raise NotRegular(f"regex class item {o}")
+            return parts[0] if len(parts) == 1 else z3.Union(*parts)
+        if name in ("MAX_REPEAT", "MIN_REPEAT"):
+            lo, hi, sub = av
+            r = seq(list(sub))
+            if str(hi) == "MAXREPEAT":
+                return z3.Star(r) if lo == 0 else z3.Plus(r) if lo == 1 else z3.Concat(z3.Loop(r, lo, lo), z3.Star(r))
+            return z3.Loop(r, lo, hi)
+        if name == "SUBPATTERN":
+            return seq(list(av[-1]))
+        if name == "BRANCH":
+            rs = [seq(list(b)) for b in av[1]]
+            return z3.Union(*rs)
+        raise NotRegular(f"regex construct {name}")
+
+    return seq(list(sre_parse.parse(pattern)))
+
+
 def to_re(grammar, start="<start>"):
     from fandango.language.grammar.nodes.alternative import Alternative
     from fandango.language.grammar.nodes.concatenation import Concatenation
@@ -30,7 +81,7 @@ def to_re(grammar, start="<start>"):
         if v is None:
             raise NotRegular("bit terminal")
         if sym.is_regex:
-            raise NotRegular("regex terminal")
+            return rx_to_z3(v)
         if isinstance(v, bytes):
             v = v.decode("latin-1")
         return z3.Re(z3.StringVal(v)) if len(v) else z3.Re(z3.StringVal(""))
